@@ -474,7 +474,9 @@ func (l *State) SetServiceState(s *ServiceState) {
 func (l *State) setServiceStateLocked(s *ServiceState) {
 	key := s.Service.CompoundServiceID()
 	old, hasOld := l.services[key]
-	if hasOld {
+	// An entry without a service is only the reminder to deregister a
+	// service that the catalog holds and the agent did not know.
+	if hasOld && old.Service != nil {
 		s.InSync = s.Service.IsSame(old.Service)
 	}
 	l.services[key] = s
@@ -836,7 +838,9 @@ func (l *State) SetCheckState(c *CheckState) {
 func (l *State) setCheckStateLocked(c *CheckState) {
 	id := c.Check.CompoundCheckID()
 	existing := l.checks[id]
-	if existing != nil {
+	// An entry without a check is only the reminder to deregister a check
+	// that the catalog holds and the agent did not know.
+	if existing != nil && existing.Check != nil {
 		c.InSync = c.Check.IsSame(existing.Check)
 		// If the existing check has a Defercheck, it needs to be
 		// assigned to the new check
